@@ -34,13 +34,29 @@ open History
 
 namespace Basis
 
+/-- For order ≥ 2 the inner slice `knots[deg:-deg]` of `make_periodic` is a genuine slice (the special
+    case `deg = 0`, python's empty `knots[0:-0]`, only concerns order 1). -/
+theorem makePeriodicKnots_of_two_le (b : Basis K) (k : ℕ) (hp : 2 ≤ b.order) :
+    b.makePeriodicKnots k
+      = ((b.knots.extract (b.order - 1) (b.knots.size - (b.order - 1))).extract
+            ((b.knots.extract (b.order - 1) (b.knots.size - (b.order - 1))).size - (k + 1) - 1)
+            ((b.knots.extract (b.order - 1) (b.knots.size - (b.order - 1))).size - 1)).map
+          (fun x => x - (b.stop - b.start))
+        ++ Array.replicate (b.order - 1 - k - 1) b.start
+        ++ b.knots.extract (b.order - 1) (b.knots.size - (b.order - 1))
+        ++ Array.replicate (b.order - 1 - k - 1) b.stop
+        ++ ((b.knots.extract (b.order - 1) (b.knots.size - (b.order - 1))).extract 1 (k + 1 + 1)).map
+          (fun x => x + (b.stop - b.start)) := by
+  unfold makePeriodicKnots
+  simp only []
+  rw [if_neg (by omega)]
+
 /-- With at least `p + k` functions none of the slices of `make_periodic` is truncated and the new
     knot vector has as many entries as the old one. -/
 theorem makePeriodicKnots_size (b : Basis K) (k : ℕ) (hk : k + 2 ≤ b.order)
     (hlong : 2 * b.order + k ≤ b.knots.size) : (b.makePeriodicKnots k).size = b.knots.size := by
-  unfold makePeriodicKnots
-  simp only [if_neg (show ¬ b.order - 1 = 0 by omega), Array.size_append, Array.size_map, Array.size_extract,
-    Array.size_replicate]
+  rw [makePeriodicKnots_of_two_le b k (by omega)]
+  simp only [Array.size_append, Array.size_map, Array.size_extract, Array.size_replicate]
   omega
 
 /-- The basis a successful `Basis.makePeriodic` returns. -/
